@@ -121,6 +121,41 @@ def build_harness(extra_flags=(), tag="main"):
     return exe, None
 
 
+def build_aux(name, sources, flags, libs=("-lpugixml", "-lpthread")):
+    """Build an auxiliary binary (e.g. the TSan stress) from the CURRENT /repo tree; cached by content hash."""
+    key = tree_hash([os.path.join(REPO, "include"), os.path.join(REPO, "src/common"), os.path.join(REPO, "src/csv"),
+                     os.path.join(REPO, "src/msgpack")] + list(sources), extra=name + " ".join(flags))
+    outdir = os.path.join(CACHE, f"aux-{name}-{key}")
+    exe = os.path.join(outdir, name)
+    if os.path.exists(exe):
+        return exe, None
+    os.makedirs(outdir, exist_ok=True)
+    srcs = list(sources) + repo_sources()
+    objs = [os.path.join(outdir, hashlib.md5(x.encode()).hexdigest()[:8] + "_" + os.path.basename(x) + ".o") for x in srcs]
+    base = ["-std=c++17", f"-I{REPO}/include", f"-I{REPO}/src", f"-I{HARNESS}", "-DBITSERIALIZER_VERIF"]
+
+    def comp(j):
+        return j[0], sh(["g++"] + base + list(flags) + ["-c", j[0], "-o", j[1]], timeout=1800)
+
+    errs = []
+    with ThreadPoolExecutor(NPROC) as ex:
+        for src, (rc, out) in ex.map(comp, zip(srcs, objs)):
+            if rc != 0:
+                errs.append(f"{src}:\n{out[-2000:]}")
+    if errs:
+        shutil.rmtree(outdir, ignore_errors=True)
+        return None, "\n".join(errs)
+    rc, out = sh(["g++"] + objs + [f for f in flags if f.startswith("-fsanitize")] + list(libs) + ["-o", exe + ".tmp"], timeout=900)
+    if rc != 0:
+        shutil.rmtree(outdir, ignore_errors=True)
+        return None, out[-3000:]
+    os.rename(exe + ".tmp", exe)
+    for d in sorted((d for d in os.listdir(CACHE) if d.startswith(f"aux-{name}-") and d != f"aux-{name}-{key}"),
+                    key=lambda d: os.path.getmtime(os.path.join(CACHE, d)))[:-1]:
+        shutil.rmtree(os.path.join(CACHE, d), ignore_errors=True)
+    return exe, None
+
+
 # --------------------------------------------------------------------------------------------
 # running ops through the implementation (restart on crash) and the Lean driver
 # --------------------------------------------------------------------------------------------
@@ -199,9 +234,12 @@ def _crash_label(rc, stderr):
         txt = m.group(0)
         kind = "asan" if "Address" in txt else "lsan" if "Leak" in txt else "ubsan"
         m2 = re.search(r"(heap-buffer-overflow|stack-buffer-overflow|stack-overflow|allocation-size-too-big|out-of-memory|"
-                       r"SEGV|signed integer overflow|float-cast-overflow|negation of|shift|index \S+ out of bounds|"
+                       r"SEGV|signed integer overflow|float-cast-overflow|outside the range of representable values|negation of|shift|index \S+ out of bounds|memcpy-param-overlap|"
                        r"load of|null pointer|division by zero|detected memory leaks|misaligned)", stderr)
-        return f"crash:{kind}:{(m2.group(1) if m2 else 'other').replace(' ', '_')}"
+        what = (m2.group(1) if m2 else 'other').replace(' ', '_')
+        if what == "outside_the_range_of_representable_values":
+            what = "float-cast-overflow"
+        return f"crash:{kind}:{what}"
     if rc < 0:
         return f"crash:signal:{-rc}"
     return f"crash:exit:{rc}"
@@ -266,10 +304,10 @@ def run_model(ops, impl_answers=None):
 # --------------------------------------------------------------------------------------------
 # Lean side: translators, build, audit
 # --------------------------------------------------------------------------------------------
-def run_translators():
+def run_translators(objdir=None):
     """Regenerate lean/BSVerif/Generated/*.lean from the current tree. Returns (ok, notes)."""
     import translate
-    return translate.run_all(REPO, os.path.join(LEAN, "BSVerif", "Generated"), CACHE, CXXFLAGS)
+    return translate.run_all(REPO, os.path.join(LEAN, "BSVerif", "Generated"), CACHE, CXXFLAGS, objdir)
 
 
 LAKE_LOCK = os.path.join(CACHE, "lake.lock")
@@ -438,9 +476,19 @@ def main():
     notes = []
     obligations = []     # dicts {name, kind, discharged}
 
+    # ---- harness first (its object files feed the inventory translator) ----------------------
+    exe, err = build_harness()
+    if exe is None:
+        log(err)
+        payload = {"property": prop, "kind": "harness-build", "detail": err[-3000:]}
+        path = write_replay(prop, "build", payload)
+        print(f"INFRA-ERROR: harness does not build against the current tree")
+        print(f"VIOLATION property={prop} replay={path} no-failing-input-found")
+        sys.exit(1)
+
     # ---- 1-3: Lean side -------------------------------------------------------------------
     with FileLock(LAKE_LOCK):
-        tr_ok, tr_notes = run_translators()
+        tr_ok, tr_notes = run_translators(os.path.dirname(exe))
         notes += tr_notes
         rc, out = lake_build("bsmodel")
         if rc != 0:
@@ -486,16 +534,6 @@ def main():
             if rc2 != 0:
                 broken_theorems.append({"theorem": "leanchecker", "message": out2[-300:]})
 
-    # ---- 4: harness -----------------------------------------------------------------------
-    exe, err = build_harness()
-    if exe is None:
-        log(err)
-        payload = {"property": prop, "kind": "harness-build", "detail": err[-3000:]}
-        path = write_replay(prop, "build", payload)
-        print(f"INFRA-ERROR: harness does not build against the current tree")
-        print(f"VIOLATION property={prop} replay={path} no-failing-input-found")
-        sys.exit(1)
-
     # ---- replay mode ----------------------------------------------------------------------
     if args.replay:
         payload = json.load(open(args.replay))
@@ -519,6 +557,13 @@ def main():
     ops = corpus + gen_ops
     impl = run_impl(exe, ops, per_op_timeout=getattr(spec, "OP_TIMEOUT", 10.0))
     res = run_model(ops, impl)
+    # property-specific extra executions outside the line protocol (e.g. the TSan stress of C19)
+    extra_run = getattr(spec, "extra_run", None)
+    if extra_run:
+        for xop, xans, xverdict in extra_run(sys.modules[__name__], tier, rng, boost):
+            ops.append(xop)
+            impl.append(xans)
+            res.append((xans, "agree", xverdict))
 
     known = load_known(prop)
     known_classes = {k["class"]: k for k in known}
